@@ -1204,7 +1204,8 @@ class MyPyAstVisitor:
             if _check_publicity_with_reexports is not None:
                 return _check_publicity_with_reexports
 
-        if is_internal(name) and not name.endswith("__"):
+        # Names with leading underscores are private, unless they are dunder names like "__init__"
+        if is_internal(name) and not (name.startswith("__") and name.endswith("__")):
             return False
 
         if isinstance(parent, Class) and (name == "__init__" or not is_internal(name)):
